@@ -200,3 +200,22 @@ def make_initial(i, kw):
         out.insert(r.randint(0, len(out)), ("T", ("unknown", "g_T", 1, 1, True))); n_time += 1
     after = r.choice([0, 0, "all", n_time, min(len(out), 1 + n_time)])
     return out, after
+
+
+def make_late(i, kw):
+    """history for the i-th specification: which declarations happen only after a first transcription was queried"""
+    r = random.Random("rockit-history-%d" % i)
+    late = {}
+    if kw["constraints"] and r.random() < 0.7:
+        late["constraints"] = r.randint(1, len(kw["constraints"]))
+    if kw["objective"] and r.random() < 0.6:
+        late["objective"] = r.randint(1, len(kw["objective"]))
+    if (kw["params"] or kw["T"][0] == "param") and r.random() < 0.6:
+        late["pvals"] = True
+    if r.random() < 0.3:
+        late["method"] = True
+    if r.random() < 0.4:
+        late["query"] = True
+    if not late:
+        late["method"] = True
+    return late
